@@ -133,8 +133,8 @@ def r2_write_last(c, facts):
         sw = run.mir['blocks'][t['target']]['term']
         if sw['t'] != 'switch':
             continue
-        brk = [x for v, x in sw['targets'] if v == '1']
-        cont = [x for v, x in sw['targets'] if v == '0']
+        brk = [P.enum_edges(sw)['1']] if '1' in P.enum_edges(sw) else []
+        cont = [P.enum_edges(sw)['0']] if '0' in P.enum_edges(sw) else []
         if not brk:
             continue
         nq += 1
@@ -200,8 +200,9 @@ def r3_exit(c, facts):
     if sw['t'] != 'switch':
         c.skip(R, 'main', 'result of run() is not switched on directly')
         return
-    err_t = [x for v, x in sw['targets'] if v == '1']
-    ok_t = sw['otherwise'] if err_t else None
+    ee = P.enum_edges(sw)   # discriminant 0 = Ok, 1 = Err; either may be the `otherwise` edge
+    ok_t = ee.get('0')
+    err_t = [ee['1']] if '1' in ee else []
     consts = exit_consts(main)
     c.floor(R, 'ExitCode constants assigned in main', len(consts), 3)
     for b, name in consts:
@@ -255,7 +256,7 @@ def r4_err_disc(c, facts):
                 cur = t['target']
                 sw = parse.mir['blocks'][cur]['term']
                 if sw['t'] == 'switch':
-                    some_t = [x for v, x in sw['targets'] if v == '1']
+                    some_t = [P.enum_edges(sw)['1']] if '1' in P.enum_edges(sw) else []
                     if some_t and not P.success_return_reachable(parse, some_t[0], []):
                         ok = True
                     elif some_t:
@@ -284,7 +285,7 @@ def r4_err_disc(c, facts):
         sw = comp.mir['blocks'][t['target']]['term']
         err_t = None
         if sw['t'] == 'switch':
-            e1 = [x for v, x in sw['targets'] if v == '1']
+            e1 = [P.enum_edges(sw)['1']] if '1' in P.enum_edges(sw) else []
             err_t = e1[0] if e1 else None
         if err_t is None:
             # `?` form
@@ -320,7 +321,7 @@ def r4_err_disc(c, facts):
             continue
         b, t = es[0]
         sw = fn.mir['blocks'][t['target']]['term']
-        e1 = [x for v, x in sw['targets'] if v == '1'] if sw['t'] == 'switch' else []
+        e1 = [P.enum_edges(sw)['1']] if '1' in P.enum_edges(sw) else [] if sw['t'] == 'switch' else []
         if not e1:
             c.skip(R, q, 'unrecognised match on eval result')
             continue
@@ -426,9 +427,9 @@ def _field_sources(fn, local, idx, depth=0):
     return {(r, fp) for r, fp in out if fp or 1 <= r <= fn.mir['argc']}
 
 
-def r7_option_precedence(c, facts):
+def r7_option_precedence(c, facts, rule='C13.R7'):
     """configurations: a command-line option overrides the configuration file, uniformly for main, target and base"""
-    R = c.rule('C13.R7', 'OPTION-PRECEDENCE: Config::{main,target,base} take the command-line option first and the configuration file second, each from its own field')
+    R = c.rule(rule, 'OPTION-PRECEDENCE: Config::{main,target,base} take the command-line option first and the configuration file second, each from its own field')
     for x in ('main', 'target', 'base'):
         fn = c.anchor(R, 'oal_client::config::Config::' + x)
         idx = MF.defs_index(fn)
@@ -468,6 +469,8 @@ def run(c, facts):
     R8 = c.rule('C13.R8', 'LSP-FRESH: the diagnostics the server publishes are computed from the current texts after every open, change, close or folder change (shared with C15.R1/R2)')
     c.shared(R8, c15.r1_set_stale, 'C15.R1', facts)
     c.shared(R8, c15.r2_refresh_first, 'C15.R2', facts)
+    c.shared(R8, c15.r3_reset_all, 'C15.R3', facts)
+    c.shared(R8, c15.r6_doc_sync, 'C15.R6', facts)
     c.run(r1_sole_writer, facts)
     c.run(r2_write_last, facts)
     c.run(r3_exit, facts)
